@@ -612,6 +612,61 @@ def run_linop(case):
         if expo != 0.0:
             raise Reject("a plain tensor list carries no exponent")
         lo = Q.TNLinearOperator(list(tn), left, right)
+    def act_on(lo, M, single, views, stage):
+        """apply the case's action to one operator object and compare with the dense matrix M"""
+        tol = (EXACT32 if single else EXACT64) * 10
+        if tuple(lo.shape) != M.shape:
+            raise Violation("linop-shape", got=list(lo.shape), want=list(M.shape), views=views)
+        rng = np.random.default_rng(case["vseed"])
+        act = case["act"]
+        cdt = np.complex64 if single else np.complex128
+        info = dict(route="linop:" + act, views=views, exp_nonzero=expo != 0, build=route, stage=stage)
+        if act == "matvec":
+            v = (rng.normal(size=M.shape[1]) + 1j * rng.normal(size=M.shape[1])).astype(cdt)
+            got, want = lo @ v, M @ v
+            fl = floor * np.linalg.norm(v)
+        elif act == "rmatvec":
+            v = (rng.normal(size=M.shape[0]) + 1j * rng.normal(size=M.shape[0])).astype(cdt)
+            got, want = lo.rmatvec(v), M.conj().T @ v
+            fl = floor * np.linalg.norm(v)
+        elif act == "matmat":
+            V = (rng.normal(size=(M.shape[1], 3)) + 1j * rng.normal(size=(M.shape[1], 3))).astype(cdt)
+            got, want = lo @ V, M @ V
+            fl = floor * np.linalg.norm(V)
+        elif act == "to_dense":
+            with rejecting(ValueError, tag="hyper-to_dense:"):
+                got = lo.to_dense()
+            want, fl = M, floor
+        elif act == "A":
+            with rejecting(ValueError, tag="hyper-to_dense:"):
+                got = lo.A
+            want, fl = M, floor
+        elif act == "trace":
+            if list(lo.ldims) != list(lo.rdims):
+                raise Reject("not square side by side")
+            with rejecting(ValueError, tag="trace:"):
+                got = lo.trace()
+            want, fl = np.trace(M), floor
+        else:
+            got = np.array(list(lo.ldims) + list(lo.rdims))
+            want = np.array([s_ for s_ in (lo.ldims + lo.rdims)])
+            if int(np.prod(lo.ldims)) != M.shape[0] or int(np.prod(lo.rdims)) != M.shape[1]:
+                raise Violation("linop-dims", views=views)
+            fl = 1.0
+        e = rel_err(np.asarray(got), np.asarray(want), floor=fl)
+        if not e <= tol:
+            raise Violation("value", err=e, **info)
+        return e
+
+    # use history: the base operator is used first, the views are derived from the *used* object, and the base is used
+    # again afterwards - cached contractors / cached results shared between an operator and its views must not leak
+    base, M0 = lo, M
+    e = 0.0
+    if case["view"]:
+        try:
+            e = act_on(base, M0, single, [], "base-before")
+        except Reject:
+            pass
     views = []
     for v in case["view"]:
         if v == "H":
@@ -625,53 +680,16 @@ def run_linop(case):
             single = True
         elif v == "astype128":
             lo = lo.astype("complex128")
-        elif v == "neg":
-            lo, M = -lo, -M
         elif v == "copy":
             lo = lo.copy() if hasattr(lo, "copy") else lo
         views.append(v)
-    tol = (EXACT32 if single else EXACT64) * 10
-    if tuple(lo.shape) != M.shape:
-        raise Violation("linop-shape", got=list(lo.shape), want=list(M.shape), views=views)
-    rng = np.random.default_rng(case["vseed"])
+    e = max(e, act_on(lo, M, single, views, "view"))
+    if case["view"]:
+        try:
+            e = max(e, act_on(base, M0, G.net_single(desc), [], "base-after"))
+        except Reject:
+            pass
     act = case["act"]
-    cdt = np.complex64 if single else np.complex128
-    info = dict(route="linop:" + act, views=views, exp_nonzero=expo != 0, build=route)
-    if act == "matvec":
-        v = (rng.normal(size=M.shape[1]) + 1j * rng.normal(size=M.shape[1])).astype(cdt)
-        got, want = lo @ v, M @ v
-        fl = floor * np.linalg.norm(v)
-    elif act == "rmatvec":
-        v = (rng.normal(size=M.shape[0]) + 1j * rng.normal(size=M.shape[0])).astype(cdt)
-        got, want = lo.rmatvec(v), M.conj().T @ v
-        fl = floor * np.linalg.norm(v)
-    elif act == "matmat":
-        V = (rng.normal(size=(M.shape[1], 3)) + 1j * rng.normal(size=(M.shape[1], 3))).astype(cdt)
-        got, want = lo @ V, M @ V
-        fl = floor * np.linalg.norm(V)
-    elif act == "to_dense":
-        with rejecting(ValueError, tag="hyper-to_dense:"):
-            got = lo.to_dense()
-        want, fl = M, floor
-    elif act == "A":
-        with rejecting(ValueError, tag="hyper-to_dense:"):
-            got = lo.A
-        want, fl = M, floor
-    elif act == "trace":
-        if [desc["sizes"][l] for l in left] != [desc["sizes"][l] for l in right]:
-            raise Reject("not square side by side")
-        with rejecting(ValueError, tag="trace:"):
-            got = lo.trace()
-        want, fl = np.trace(M), floor
-    else:
-        got = np.array(list(lo.ldims) + list(lo.rdims))
-        want = np.array([s for s in (lo.ldims + lo.rdims)])
-        if int(np.prod(lo.ldims)) != M.shape[0] or int(np.prod(lo.rdims)) != M.shape[1]:
-            raise Violation("linop-dims", views=views)
-        fl = 1.0
-    e = rel_err(np.asarray(got), np.asarray(want), floor=fl)
-    if not e <= tol:
-        raise Violation("value", err=e, **info)
     return {"nt": True, "cls": ["act=" + act, "build=" + route] + ["view=" + v for v in views] + (["exp!=0"] if expo else []) +
             (["hyper"] if G.net_is_hyper(desc) else []), "err": e}
 
